@@ -674,12 +674,12 @@ def extract_machine_flags():
             raise Unsupported(f"{cb}_check_conf not found")
     if text.count("self.pipeline_cfg['pipeline'][input_step] = ") != 10:
         raise Unsupported("the check callbacks do not all store their step configuration in pipeline_cfg")
-    return {"bandWhole": band_whole, "resetPipelineCfg": reset, "mergeOnlyDicts": extract_update_conf()}
+    return {"bandWhole": band_whole, "resetPipelineCfg": reset, "strictMerge": extract_update_conf()}
 
 
 UPDATE_CONF_BODY = """config = copy.deepcopy(def_cfg)
 for key, value in user_cfg.items():
-    if %s:
+    if isinstance(value, Mapping):%s
         config[key] = update_conf(config.get(key, {}), value)
     else:
         if value == 'NaN':
@@ -690,17 +690,22 @@ for key, value in user_cfg.items():
             value = -np.inf
         config[key] = value
 return config"""
+STRICT_GUARD = "\n        if not isinstance(config.get(key, {}), Mapping):\n            raise TypeError("
 
 
 def extract_update_conf():
-    """update_conf has the shape the model mirrors; is a user dictionary merged only into a dictionary?"""
+    """update_conf has the shape the model mirrors; does it refuse a dictionary given where the default is
+    not one (`if not isinstance(config.get(key, {}), Mapping): raise TypeError(...)`)?"""
     fn = find_function(parse(CHECK_CONFIGURATION), "update_conf")
     body = [s for s in fn.body if not (isinstance(s, ast.Expr) and isinstance(s.value, ast.Constant))]
     text = "\n".join(ast.unparse(s) for s in body)
-    if text == UPDATE_CONF_BODY % "isinstance(value, Mapping)":
+    if text == UPDATE_CONF_BODY % "":
         return False
-    if text == UPDATE_CONF_BODY % "isinstance(value, Mapping) and isinstance(config.get(key, {}), Mapping)":
-        return True
+    head, _, tail = (UPDATE_CONF_BODY % "@").partition("@")
+    if text.startswith(head + STRICT_GUARD) and text.endswith(tail):
+        middle = text[len(head) + len(STRICT_GUARD): len(text) - len(tail)]
+        if "\n" not in middle and middle.endswith(")"):
+            return True
     raise Unsupported("update_conf: unexpected body")
 
 
@@ -835,8 +840,8 @@ def render(data) -> str:
     out.append("")
     fl = data["flags"]
     out.append("/-- read from `pandora/state_machine.py` (`check_band_pipeline`, `check_conf`) -/")
-    out.append("def machineFlags : MachineFlags := { bandWhole := %s, resetPipelineCfg := %s, mergeOnlyDicts := %s }"
-               % tuple("true" if fl[k] else "false" for k in ("bandWhole", "resetPipelineCfg", "mergeOnlyDicts")))
+    out.append("def machineFlags : MachineFlags := { bandWhole := %s, resetPipelineCfg := %s, strictMerge := %s }"
+               % tuple("true" if fl[k] else "false" for k in ("bandWhole", "resetPipelineCfg", "strictMerge")))
     out.append("")
     inp = data["input"]
     out.append("def inputSchemas : InputSchemas := {")
